@@ -34,15 +34,22 @@ def check_arms(res, pid, where, o, expected, src):
         if kind in ("instantiate", "migrate"):
             body = norm(f["body"])
             m = ms[0]
-            mm = re.search(r"letSelf\{((?:%s,)*)\}=self;contract\.(%s)\(Into::into\(ctx\)((?:,%s)*),?\)\.map_err\(Into::into\)" % (ID, ID, ID), body)
+            mm = re.search(r"letSelf\{((?:%s(?::%s)?,)*)\}=self;contract\.(%s)\(Into::into\(ctx\)((?:,%s)*),?\)\.map_err\(Into::into\)" % (ID, ID, ID, ID), body)
             if not mm:
                 bad("unexpected struct dispatch body: %s" % f["body"])
                 continue
-            fields = [x for x in mm.group(1).split(",") if x]
+            binds = {}
+            for x in mm.group(1).split(","):
+                if x:
+                    fld, _, b = x.partition(":")
+                    binds[fld] = b or fld
             passed = [x for x in mm.group(3).split(",") if x]
             want = [a.name for a in m.args]
-            if mm.group(2) != m.name or passed != want or sorted(fields) != sorted(want):
-                bad("%s dispatch calls %s(%s) with destructured %s; handler is %s(%s)" % (tname, mm.group(2), passed, fields, m.name, want), cls="struct_call")
+            shadow = sorted(set(binds.values()) & {"contract", "ctx", "self"})
+            if shadow:
+                bad("%s dispatch binds a field to `%s`, shadowing its own parameter before the handler is called" % (tname, shadow), cls="shadow")
+            if mm.group(2) != m.name or sorted(binds) != sorted(want) or passed != [binds.get(x) for x in want]:
+                bad("%s dispatch calls %s(%s) with bindings %s; handler is %s(%s)" % (tname, mm.group(2), passed, binds, m.name, want), cls="struct_call")
             continue
         arms = [a for a in f.get("arms", []) if norm(a["on"]) == "self" and not norm(a["pat"]).startswith("_Phantom")]
         if len(arms) != len(ms):
